@@ -1,0 +1,17 @@
+//go:build verif
+
+package index
+
+import "github.com/sourcegraph/zoekt/query"
+
+// VerifRegexpMatchTreePatterns builds the match tree newRegexpMatchTree builds for q and returns the source text of the
+// regexps it will evaluate: the grafana/regexp one (file names, and content when RE2 is not in play) and the hybrid one
+// (content; absent for file-name queries). Verification hook (build tag verif only).
+func VerifRegexpMatchTreePatterns(q *query.Regexp) (grafana string, hybrid string, hasHybrid bool) {
+	t := newRegexpMatchTree(q)
+	grafana = t.regexp.String()
+	if t.hybridRegexp != nil {
+		return grafana, t.hybridRegexp.String(), true
+	}
+	return grafana, "", false
+}
